@@ -87,7 +87,7 @@ RULES["C09"] = [
   #
   ("change_scrolling_region|row-lo|", "reviewed", "upper_left_position() returns a margin-derived row " + DEAD_ORIGIN + "; otherwise it returns the first visible line"),
   #
-  ("check_scrolling_on_caret_down|row-lo|", "reviewed", "private helper with two callers (Caret::lf, Caret::index), both of which increment the row immediately before the call: the row is >= 1 when it is decremented here"),
+  ("check_scrolling_on_caret_down|row-lo|", "reviewed", "private helper with three callers: Caret::lf and Caret::index increment the row immediately before the call (row >= 1 when it is decremented here); Caret::index and Caret::down clamp with limit_caret_pos right after the call (their own contracts are proven)"),
   #
   ("Caret::ff|store-y|default()", "known", "form feed: " + ABS00 + " (Caret::ff clears the layer but the buffer keeps its height)"),
   ("caret::Caret::reset|store-y|default()", "known", "RIS / DECSTR: " + ABS00),
